@@ -300,6 +300,15 @@ func init() {
 		}
 		return VBool{BoolC(e.runGoroutines(env, bodies))}
 	}
+	// AllocatedBy(f): natively the bytes allocated while f runs; under the executor f just runs
+	// (allocation sizes are checked by the MakeSlice obligation) and the result is 0
+	intrinsics[S+"AllocatedBy"] = func(e *Exec, a []Value) Value {
+		e.callClosure(a[0].(VFunc), nil)
+		if intMode {
+			return VInt{IntC(bigZero())}
+		}
+		return VInt{BVu(64, 0)}
+	}
 	intrinsics[S+"Symbolic"] = func(e *Exec, a []Value) Value { return VBool{BoolC(true)} }
 
 	verifHooks["verifBool"] = func(e *Exec, a []Value) Value {
